@@ -8,7 +8,7 @@ CFG = dict(
          "with offsets, defaults, ignoreNull, start/reset, wrappers `col - lag(col)` and `acc_max - acc_min`, OVER (PARTITION BY k1[,k2] WHEN g cmp c), "
          "WHERE none / plain / with an analytic call / both; cap 1,2,3 or default) and 6-30 rows of 2-5 partitions interleaved at random "
          "(typed keys incl. separator bytes, values float/int/NULL/missing/string/bool with repeats), each row sent through EmitSync and through Emit + sync sink "
-         "(sentinel row ends the wait), plus 2 partition-key encoder ops; distinct = distinct (cfg, op list)",
+         "(sentinel row ends the wait), plus 2 partition-key encoder ops; distinct = distinct (cfg, op list) Added late: a second analytic conjunct in WHERE with the same call text and another OVER clause. Every fifth case runs under WithHighPerformance (`preset high`), for C05/C06/C12/C13/C14/C16/C20 another fifth under WithLowLatency (`preset low`); every seventh case follows a noise prelude (failing statements, malformed rows, panicking sink / function in other instances).",
     assumptions=["column spellings: partition keys also as nested fields (dev.k1), the first argument of an analytic call also qualified with a stream alias (s.v); a qualified column inside a wrapper expression / WHEN / WHERE is the recorded finding qualified-stream-column-in-expression (only in the corpus witness, class assigned from cfg colstyle qualw)",
                  
         "float64 partition values are identified with their strconv.FormatFloat(x,'g',-1,64) text (NaN and -0 not generated)",
